@@ -123,6 +123,20 @@ theorem plane_multiply_pointwise (ph : R → K) (amp : Attr K) (opd : Attr R) (S
     obtain ⟨g, hg, rfl⟩ := hq
     rw [hs1 g hg, Bool.and_false]
 
+/-- the hypothesis `covers` of `plane_multiply_pointwise` holds for every plane the constructor builds: the model of
+`boundary_slice` (first/last row and column with a set entry) returns slices inside the array that contain the mask's
+support — so for constructed planes the only remaining hypothesis is `hbig` (no one-pixel bounding box) -/
+theorem constructed_plane_covers (s0 s1 : Int) (ms : List (Int → Int → Bool)) (S0 S1 : Int) (l : List Seg)
+    (h : mkMask s0 s1 ms = some (.segs S0 S1 l)) : S0 = s0 ∧ S1 = s1 ∧ ∀ g ∈ l, g.covers s0 s1 := by
+  unfold mkMask at h
+  cases hm : ms.mapM (fun m => (bboxSlice s0 s1 m).map fun s => (⟨m, s⟩ : Seg)) with
+  | none => rw [hm] at h; simp at h
+  | some l' =>
+    rw [hm] at h
+    simp only [Option.map_some, Option.some.injEq, MaskM.segs.injEq] at h
+    obtain ⟨rfl, rfl, rfl⟩ := h
+    exact ⟨rfl, rfl, mkMask_covers _ _ ms _ hm⟩
+
 /-- the literal statement for a monolithic plane (one mask): inside the mask the field is multiplied by
 `amplitude * exp(2 pi i opd / wavelength)`, outside by `0` -/
 theorem plane_multiply_monolithic (ph : R → K) (amp : Attr K) (opd : Attr R) (S0 S1 : Int) (g : Seg)
